@@ -182,7 +182,7 @@ fn bucket(avg: u64) -> Option<u8> {
     }
 }
 #[kani::proof]
-#[kani::unwind(6)]
+#[kani::unwind(8)]
 fn c18_rtt_sample_sets_ring_of_current_address() {
     let (p, q) = (any_spec(), any_spec());
     let mut m = build(&p, &q);
@@ -265,7 +265,7 @@ fn c18_ring0_targets_same_cluster_ring0_only() {
 
 // ---- end to end: a renewed identity with a new address keeps getting ring updates ---------------
 #[kani::proof]
-#[kani::unwind(6)]
+#[kani::unwind(8)]
 fn c18_renewed_identity_followed_by_rtt() {
     let mut m = Members::default();
     let (k1, t1) = any_ts();
